@@ -326,7 +326,7 @@ NATIVE = {
                "unitary1", "unitary2", "cy", "ch"],
     "cirq": ["H", "X", "Y", "Z", "S", "T", "Sdag", "SqrtX", "SqrtXdag", "SqrtY", "Tdag", "rx", "ry", "rz", "CNOT", "CZ", "SWAP", "TOFFOLI",
              "ISWAP", "matrix1", "matrix2"],
-    "braket": ["h", "x", "y", "z", "s", "si", "t", "ti", "v", "vi", "rx", "ry", "rz", "phaseshift", "cnot", "cz", "swap", "ccnot",
+    "braket": ["h", "x", "y", "z", "s", "si", "t", "ti", "v", "vi", "rx", "ry", "rz", "phaseshift", "u", "u", "cnot", "cz", "swap", "ccnot",
                "unitary1", "unitary2", "iswap", "cy"],
     "tket": ["H", "X", "Y", "Z", "S", "Sdg", "T", "Tdg", "SX", "SXdg", "Rx", "Ry", "Rz", "U1", "U2", "U3", "CX", "CZ", "SWAP", "CCX", "CY"],
 }
@@ -340,7 +340,8 @@ NPAR = {"RX": 1, "RY": 1, "RZ": 1, "U1": 1, "U2": 2, "U3": 3, "paulirot": 1, "rx
 def native_specs(backend, rng, n, k):
     from oracle import dense
 
-    ang = lambda: rng.choice([rng.uniform(-7, 7), rng.randint(-8, 8) * math.pi / 4])
+    # exact special values (0, ±π/2, π) matter: reverse adapters pattern-match on them
+    ang = lambda: rng.choice([rng.uniform(-7, 7), rng.randint(-8, 8) * math.pi / 4, 0.0, 0.0, math.pi / 2, math.pi])
     specs = []
     for _ in range(k):
         g = rng.choice(NATIVE[backend])
@@ -432,6 +433,8 @@ def build_native(backend, n, specs):
         for g, q, ps, extra in specs:
             if g in ("rx", "ry", "rz", "phaseshift"):
                 getattr(c, g)(q[0], ps[0])
+            elif g == "u":
+                c.u(q[0], *ps)
             elif g in ("cnot", "cz", "swap", "iswap", "cy"):
                 getattr(c, g)(q[0], q[1])
             elif g == "ccnot":
